@@ -506,6 +506,124 @@ func vfC03Random(r *rand.Rand, n int, maxLong int, emit func([]byte)) {
 	}
 }
 
+// ---------------------------------------------------------------------------- aggregate workloads
+
+// vfC03FragSet describes one COMPLETE, well-formed set of UDP message fragments whose danger is in
+// the aggregate: every fragment is small and valid, the sum of the payloads is what is hostile.
+type vfC03FragSet struct {
+	Label string
+	Sizes []int // payload size per FragID (len = fragment count, 2..255)
+	Order []int // arrival order of FragIDs, may contain duplicates; every FragID occurs at least once
+	Total int
+}
+
+func vfC03SplitTotal(rng *rand.Rand, total, count int, random bool) []int {
+	sizes := make([]int, count)
+	if !random {
+		for i := range sizes {
+			sizes[i] = total / count
+		}
+		sizes[count-1] += total - (total/count)*count
+		return sizes
+	}
+	for i := range sizes {
+		sizes[i] = 1
+	}
+	rest := total - count
+	for rest > 0 {
+		i := rng.Intn(count)
+		add := 1 + rng.Intn(1+rest/2)
+		if sizes[i]+add > 1400 {
+			add = 1400 - sizes[i]
+		}
+		if add <= 0 {
+			// this slot is full; look for another (there is room: total <= count*1400)
+			for j := range sizes {
+				if sizes[j] < 1400 {
+					i, add = j, 1
+					break
+				}
+			}
+			if add <= 0 {
+				break
+			}
+		}
+		sizes[i] += add
+		rest -= add
+	}
+	return sizes
+}
+
+// vfC03AggregateSets: totals around the 4096-byte UDP buffer, 8 KiB, 64 KiB, 255 x 1200/1400, with
+// 2..255 fragments of 1..1400 bytes, each arriving in order, reversed and shuffled with duplicates,
+// plus nRandom random (count, sizes) points.
+func vfC03AggregateSets(rng *rand.Rand, nRandom int) []vfC03FragSet {
+	type tc struct{ total, count int }
+	fixed := []tc{{4095, 3}, {4096, 3}, {4097, 3}, {4095, 4}, {4096, 4}, {4097, 4}, {4097, 255}, {4096, 255}, {5000, 5}, {2800, 2}, {2801, 3},
+		{8192, 6}, {8191, 7}, {8193, 8}, {16384, 12}, {65535, 47}, {65536, 47}, {65537, 48}, {65536, 255}, {255, 255}, {510, 255},
+		{255 * 1200, 255}, {255 * 1400, 255}, {254 * 1400, 254}, {100000, 72}}
+	var sets []vfC03FragSet
+	add := func(label string, sizes []int) {
+		n, total := len(sizes), 0
+		for _, s := range sizes {
+			total += s
+		}
+		fwd, rev := make([]int, n), make([]int, n)
+		for i := range fwd {
+			fwd[i], rev[i] = i, n-1-i
+		}
+		shuf := rng.Perm(n)
+		for d := 0; d < 1+n/8; d++ { // duplicates
+			pos := rng.Intn(len(shuf) + 1)
+			shuf = append(shuf[:pos], append([]int{rng.Intn(n)}, shuf[pos:]...)...)
+		}
+		for oi, o := range [][]int{fwd, rev, shuf} {
+			sets = append(sets, vfC03FragSet{Label: fmt.Sprintf("%s/%s", label, []string{"in-order", "reversed", "shuffled+dups"}[oi]), Sizes: sizes, Order: o, Total: total})
+		}
+	}
+	for _, c := range fixed {
+		add(fmt.Sprintf("total=%d,count=%d,even", c.total, c.count), vfC03SplitTotal(rng, c.total, c.count, false))
+		if c.total <= c.count*1400 && c.total > c.count {
+			add(fmt.Sprintf("total=%d,count=%d,uneven", c.total, c.count), vfC03SplitTotal(rng, c.total, c.count, true))
+		}
+	}
+	for i := 0; i < nRandom; i++ {
+		count := 2 + rng.Intn(254)
+		if rng.Intn(2) == 0 {
+			count = 2 + rng.Intn(10)
+		}
+		sizes := make([]int, count)
+		big := rng.Intn(3) != 0
+		for j := range sizes {
+			if big {
+				sizes[j] = 1 + rng.Intn(1400)
+			} else {
+				sizes[j] = 1 + rng.Intn(40)
+			}
+		}
+		add(fmt.Sprintf("random-%d,count=%d", i, count), sizes)
+	}
+	return sets
+}
+
+// vfC03SetPayloads: the payload of each fragment (position-coded so that any mixing shows) and their concatenation.
+func vfC03SetPayloads(set vfC03FragSet, tag uint32) ([][]byte, []byte) {
+	parts := make([][]byte, len(set.Sizes))
+	whole := make([]byte, 0, set.Total)
+	off := 0
+	for i, n := range set.Sizes {
+		p := make([]byte, n)
+		for j := range p {
+			v := uint32(off+j)*2654435761 ^ tag
+			p[j] = byte(v >> 11)
+		}
+		parts[i] = p
+		whole = append(whole, p...)
+		off += n
+	}
+	return parts, whole
+}
+
 // ---------------------------------------------------------------------------- scripted readers
 
 // vfC03Reader hands out a byte string in chunks (mode 0: everything at once, 1: one byte per
@@ -781,7 +899,11 @@ func vfC03SealInitial(p vfC03Initial) []byte {
 	hdr = append(hdr, p.SCID...)
 	hdr = append(hdr, vfC03VarintMin(uint64(len(p.Token)))...)
 	hdr = append(hdr, p.Token...)
-	hdr = append(hdr, vfC03Varint(uint64(pnLen+len(frames)+16+p.LengthAdj), 2)...)
+	if l := uint64(pnLen + len(frames) + 16 + p.LengthAdj); l <= 16383 {
+		hdr = append(hdr, vfC03Varint(l, 2)...)
+	} else {
+		hdr = append(hdr, vfC03Varint(l, 4)...)
+	}
 	pnOff := len(hdr)
 	for i := pnLen - 1; i >= 0; i-- {
 		hdr = append(hdr, byte(p.PN>>(8*i)))
@@ -815,8 +937,15 @@ func vfC03CryptoFrame(offset, length uint64, data []byte, width int) []byte {
 }
 
 // vfC03ClientHello: a minimal TLS 1.3 ClientHello handshake message carrying the given SNI.
-func vfC03ClientHello(sni string) []byte {
+func vfC03ClientHello(sni string) []byte { return vfC03ClientHelloPad(sni, 0) }
+
+// vfC03ClientHelloPad: the same with a padding extension (type 21) of `pad` bytes, to make the
+// handshake message span many CRYPTO frames / datagram-sized pieces.
+func vfC03ClientHelloPad(sni string, pad int) []byte {
 	var ext []byte
+	if pad > 0 {
+		ext = vfC03Cat(ext, []byte{0x00, 0x15, byte(pad >> 8), byte(pad)}, make([]byte, pad))
+	}
 	if sni != "" {
 		name := []byte(sni)
 		sn := vfC03Cat([]byte{byte((len(name) + 3) >> 8), byte(len(name) + 3), 0x00, byte(len(name) >> 8), byte(len(name))}, name)
